@@ -1,4 +1,5 @@
 (* C20 — proofs about the name sanitisers (Model/Names.v). *)
+From Coq Require Import Lia ZifyBool.
 From PG Require Import Lib.Strs Gen.Tables Gen.T_C20 Model.Names.
 
 (* ---------- witnesses of the findings (replayed on the implementation by the corpus) ---------- *)
@@ -13,3 +14,438 @@ Lemma refuted_F20a : guard_F20a w_none = false /\ valid_name (class_name w_none)
 Proof. split; vm_compute; reflexivity. Qed.
 Lemma refuted_F20b : has_alnum w_dollar = false /\ valid_name (method_name w_dollar) = false.
 Proof. split; vm_compute; reflexivity. Qed.
+
+(* ================================================================= character-class facts *)
+Lemma is_alnum_ident_char : forall c, is_alnum c = true -> is_ident_char c = true.
+Proof. intros c H. unfold is_ident_char. rewrite H. reflexivity. Qed.
+
+Lemma upper_ascii_alnum : forall c, is_alnum c = true -> is_alnum (upper_ascii c) = true.
+Proof.
+  intros c. unfold is_alnum, is_alpha, upper_ascii, is_upper, is_lower, is_digit.
+  destruct ((97 <=? c) && (c <=? 122)) eqn:E; intro H; lia.
+Qed.
+
+Lemma lower_ascii_alnum : forall c, is_alnum c = true -> is_alnum (lower_ascii c) = true.
+Proof.
+  intros c. unfold is_alnum, is_alpha, lower_ascii, is_upper, is_lower, is_digit.
+  destruct ((65 <=? c) && (c <=? 90)) eqn:E; intro H; lia.
+Qed.
+
+Lemma lower_ascii_ident_char : forall c, is_ident_char c = true -> is_ident_char (lower_ascii c) = true.
+Proof.
+  intros c. unfold is_ident_char, is_alnum, is_alpha, lower_ascii, is_upper, is_lower, is_digit.
+  destruct ((65 <=? c) && (c <=? 90)) eqn:E; intro H; lia.
+Qed.
+
+Lemma ident_char_cases : forall c, is_ident_char c = true -> is_digit c = true \/ is_ident_start c = true.
+Proof.
+  intros c. unfold is_ident_char, is_ident_start, is_alnum. intro H.
+  destruct (is_digit c); [left; reflexivity | right].
+  destruct (is_alpha c); simpl in *; [reflexivity | exact H].
+Qed.
+
+Lemma forallb_app_iff : forall {A} (p : A -> bool) l1 l2,
+  forallb p (l1 ++ l2) = true <-> forallb p l1 = true /\ forallb p l2 = true.
+Proof. intros. rewrite forallb_app, andb_true_iff. tauto. Qed.
+
+Lemma forallb_concat : forall {A} (p : A -> bool) (ls : list (list A)),
+  (forall l, In l ls -> forallb p l = true) -> forallb p (concat ls) = true.
+Proof.
+  induction ls as [|l ls IH]; intro H; simpl; [reflexivity|].
+  apply forallb_app_iff. split; [apply H; left; reflexivity | apply IH; intros; apply H; right; assumption].
+Qed.
+
+Lemma forallb_map_imp : forall {A} (p q : A -> bool) (f : A -> A) l,
+  (forall x, p x = true -> q (f x) = true) -> forallb p l = true -> forallb q (map f l) = true.
+Proof.
+  induction l as [|x l IH]; intros Hf H; simpl in *; [reflexivity|].
+  apply andb_true_iff in H. destruct H as [H1 H2]. apply andb_true_iff. split; auto.
+Qed.
+
+Lemma forallb_imp : forall {A} (p q : A -> bool) l,
+  (forall x, p x = true -> q x = true) -> forallb p l = true -> forallb q l = true.
+Proof.
+  intros A p q l Hpq H. rewrite forallb_forall in *. intros x Hx. apply Hpq, H, Hx.
+Qed.
+
+(* ================================================================= span / dropwhile / strip *)
+Lemma span_spec : forall p s a b, span p s = (a, b) -> s = a ++ b /\ forallb p a = true.
+Proof.
+  induction s as [|c s IH]; intros a b H; simpl in H.
+  - inversion H; subst. split; reflexivity.
+  - destruct (p c) eqn:E.
+    + destruct (span p s) as [a' b'] eqn:E2. inversion H; subst.
+      destruct (IH a' b eq_refl) as [H1 H2]. subst s. split; [reflexivity|]. simpl. rewrite E. exact H2.
+    + inversion H; subst. split; reflexivity.
+Qed.
+
+Lemma span_head : forall p c r, p c = true -> exists a b, span p (c :: r) = (c :: a, b).
+Proof. intros p c r H. simpl. rewrite H. destruct (span p r) as [a b]. eauto. Qed.
+
+Lemma dropwhile_In : forall p s c, In c (dropwhile p s) -> In c s.
+Proof.
+  induction s as [|x s IH]; intros c H; simpl in *; [assumption|].
+  destruct (p x); [right; apply IH; assumption | assumption].
+Qed.
+
+Lemma dropwhile_snoc : forall p l c, p c = false -> dropwhile p (l ++ [c]) = dropwhile p l ++ [c].
+Proof.
+  induction l as [|x l IH]; intros c H; simpl.
+  - rewrite H. reflexivity.
+  - destruct (p x); [apply IH; assumption | reflexivity].
+Qed.
+
+Lemma dropwhile_head : forall p s, (exists c, In c s /\ p c = false) ->
+  exists c r, dropwhile p s = c :: r /\ p c = false.
+Proof.
+  induction s as [|x s IH]; intros [c [Hin Hp]]; simpl in *; [contradiction|].
+  destruct (p x) eqn:E.
+  - apply IH. destruct Hin as [->|Hin]; [congruence | eauto].
+  - eauto.
+Qed.
+
+Lemma strip_us_In : forall s c, In c (strip_us s) -> In c s.
+Proof.
+  intros s c H. unfold strip_us in H. apply in_rev in H. apply dropwhile_In in H.
+  apply in_rev in H. apply dropwhile_In in H. exact H.
+Qed.
+
+Lemma strip_us_head : forall s, (exists c, In c s /\ is_us c = false) ->
+  exists c r, strip_us s = c :: r /\ is_us c = false.
+Proof.
+  intros s H. destruct (dropwhile_head is_us s H) as [c [r [E Hc]]].
+  unfold strip_us. rewrite E. simpl rev. rewrite dropwhile_snoc by exact Hc.
+  rewrite rev_app_distr. simpl. eauto.
+Qed.
+
+(* ================================================================= keyword table facts (finite, from Gen/Tables.v) *)
+Definition ends_us (s : str) : bool := match rev s with 95 :: _ => true | _ => false end.
+Definition ends_digit (s : str) : bool := match rev s with c :: _ => is_digit c | [] => false end.
+
+Lemma kw_table_no_trailing_us : forallb (fun k => negb (ends_us k)) keywords = true.
+Proof. vm_compute. reflexivity. Qed.
+Lemma kw_table_no_trailing_digit : forallb (fun k => negb (ends_digit k)) keywords = true.
+Proof. vm_compute. reflexivity. Qed.
+Lemma kw_table_has_lower : forallb (fun k => existsb is_lower k) keywords = true.
+Proof. vm_compute. reflexivity. Qed.
+Lemma kw_table_ident : forallb is_ident keywords = true.
+Proof. vm_compute. reflexivity. Qed.
+
+Lemma is_kw_In : forall s, is_kw s = true <-> In s keywords.
+Proof. intro s. apply mem_str_In. Qed.
+
+Lemma not_kw_of_table : forall (q : str -> bool) s,
+  forallb (fun k => negb (q k)) keywords = true -> q s = true -> is_kw s = false.
+Proof.
+  intros q s Ht Hq. destruct (is_kw s) eqn:E; [|reflexivity].
+  apply is_kw_In in E. rewrite forallb_forall in Ht. specialize (Ht s E). rewrite Hq in Ht. discriminate.
+Qed.
+
+Lemma ends_us_snoc : forall s, ends_us (s ++ [95]) = true.
+Proof. intro s. unfold ends_us. rewrite rev_app_distr. reflexivity. Qed.
+
+Lemma not_kw_snoc_us : forall s, is_kw (s ++ [95]) = false.
+Proof. intro s. apply (not_kw_of_table ends_us); [exact kw_table_no_trailing_us | apply ends_us_snoc]. Qed.
+
+Lemma is_ident_snoc : forall s c, is_ident s = true -> is_ident_char c = true -> is_ident (s ++ [c]) = true.
+Proof.
+  intros [|x s] c H Hc; simpl in *; [discriminate|].
+  apply andb_true_iff in H. destruct H as [H1 H2]. rewrite H1. simpl.
+  apply forallb_app_iff. split; [assumption|]. simpl. rewrite Hc. reflexivity.
+Qed.
+
+Lemma is_ident_of_chars : forall c r,
+  is_ident_start c = true -> forallb is_ident_char r = true -> is_ident (c :: r) = true.
+Proof. intros c r H1 H2. simpl. rewrite H1, H2. reflexivity. Qed.
+
+(* ================================================================= the snake-case finisher *)
+(* digit prefix + keyword/reserved suffix make a valid name out of any non-empty string of identifier characters *)
+Lemma finish_snake_valid : forall m,
+  m <> [] -> forallb is_ident_char m = true -> valid_name (finish_snake m) = true.
+Proof.
+  intros m Hne Hall. unfold finish_snake, valid_name.
+  set (m1 := if starts_digit m then 95 :: m else m).
+  assert (Hid : is_ident m1 = true).
+  { subst m1. destruct m as [|c r]; [congruence|]. simpl starts_digit.
+    simpl in Hall. apply andb_true_iff in Hall. destruct Hall as [Hc Hr].
+    destruct (is_digit c) eqn:Ed.
+    - apply is_ident_of_chars; [reflexivity|]. simpl. rewrite Hc, Hr. reflexivity.
+    - apply is_ident_of_chars; [|exact Hr].
+      destruct (ident_char_cases c Hc) as [H|H]; [congruence | exact H]. }
+  destruct (is_kw m1 || is_reserved m1) eqn:E.
+  - rewrite is_ident_snoc by (auto). rewrite not_kw_snoc_us. reflexivity.
+  - apply orb_false_iff in E. destruct E as [E _]. rewrite Hid, E. reflexivity.
+Qed.
+
+(* ================================================================= the camel-case tokeniser *)
+Definition good_word (w : str) : Prop := w <> [] /\ forallb is_alnum w = true.
+
+Lemma upper_alnum : forall c, is_upper c = true -> is_alnum c = true.
+Proof. intros c H. unfold is_alnum, is_alpha. rewrite H. reflexivity. Qed.
+Lemma lower_alnum : forall c, is_lower c = true -> is_alnum c = true.
+Proof. intros c H. unfold is_alnum, is_alpha. rewrite H. apply orb_true_r || (destruct (is_upper c); reflexivity). Qed.
+Lemma digit_alnum : forall c, is_digit c = true -> is_alnum c = true.
+Proof. intros c H. unfold is_alnum. rewrite H. apply orb_true_r. Qed.
+
+Lemma forallb_removelast : forall (p : N -> bool) l, forallb p l = true -> forallb p (removelast l) = true.
+Proof.
+  induction l as [|x l IH]; intro H; [reflexivity|].
+  simpl in H. apply andb_true_iff in H. destruct H as [H1 H2].
+  destruct l as [|y l]; [reflexivity|]. simpl removelast. simpl. rewrite H1. apply IH. exact H2.
+Qed.
+
+Lemma tokens_fuel_good : forall fuel s, Forall good_word (tokens_fuel fuel s).
+Proof.
+  induction fuel as [|f IH]; intro s; [constructor|].
+  destruct s as [|c r]; [constructor|]. cbn [tokens_fuel].
+  destruct (is_upper c) eqn:Eu.
+  - destruct (span_head is_upper c r Eu) as [a [b Es]]. rewrite Es.
+    destruct (span_spec _ _ _ _ Es) as [_ Hall].
+    assert (Hus : good_word (c :: a)).
+    { split; [discriminate|]. eapply forallb_imp; [apply upper_alnum | exact Hall]. }
+    destruct b as [|l b']; [constructor; [exact Hus | constructor]|].
+    destruct (is_lower l) eqn:El.
+    + destruct a as [|a0 a'].
+      * destruct (span is_lower (l :: b')) as [ls rest'] eqn:E2.
+        destruct (span_spec _ _ _ _ E2) as [_ Hls].
+        constructor; [|apply IH]. split; [discriminate|].
+        simpl. rewrite (upper_alnum c Eu). simpl. eapply forallb_imp; [apply lower_alnum | exact Hls].
+      * constructor; [|apply IH]. split.
+        -- simpl. destruct a'; discriminate.
+        -- apply forallb_removelast. exact (proj2 Hus).
+    + constructor; [exact Hus | apply IH].
+  - destruct (is_lower c) eqn:El.
+    + destruct (span_head is_lower c r El) as [a [b Es]]. rewrite Es.
+      destruct (span_spec _ _ _ _ Es) as [_ Hall].
+      constructor; [|apply IH]. split; [discriminate|]. eapply forallb_imp; [apply lower_alnum | exact Hall].
+    + destruct (is_digit c) eqn:Ed.
+      * destruct (span_head is_digit c r Ed) as [a [b Es]]. rewrite Es.
+        destruct (span_spec _ _ _ _ Es) as [_ Hall].
+        constructor; [|apply IH]. split; [discriminate|]. eapply forallb_imp; [apply digit_alnum | exact Hall].
+      * apply IH.
+Qed.
+
+Lemma tokens_good : forall s, Forall good_word (tokens s).
+Proof. intro s. apply tokens_fuel_good. Qed.
+
+(* a string with an ASCII letter or digit has at least one token *)
+Lemma tokens_fuel_nonempty : forall fuel s,
+  (length s < fuel)%nat -> has_alnum s = true -> tokens_fuel fuel s <> [].
+Proof.
+  induction fuel as [|f IH]; intros s Hlen Hal; [inversion Hlen|].
+  destruct s as [|c r]; [discriminate|]. cbn [tokens_fuel].
+  destruct (is_upper c) eqn:Eu.
+  - destruct (span_head is_upper c r Eu) as [a [b Es]]. rewrite Es.
+    destruct b as [|l b']; [discriminate|].
+    destruct (is_lower l).
+    + destruct a as [|a0 a']; [destruct (span is_lower (l :: b')); discriminate | discriminate].
+    + discriminate.
+  - destruct (is_lower c) eqn:El.
+    + destruct (span_head is_lower c r El) as [a [b Es]]. rewrite Es. discriminate.
+    + destruct (is_digit c) eqn:Ed.
+      * destruct (span_head is_digit c r Ed) as [a [b Es]]. rewrite Es. discriminate.
+      * apply IH; [simpl in Hlen; lia|].
+        unfold has_alnum in Hal. cbn [existsb] in Hal.
+        assert (Ec : is_alnum c = false) by (unfold is_alnum, is_alpha; rewrite Eu, El, Ed; reflexivity).
+        rewrite Ec in Hal. exact Hal.
+Qed.
+
+Lemma tokens_nonempty : forall s, has_alnum s = true -> tokens s <> [].
+Proof. intros s H. apply tokens_fuel_nonempty; [lia | exact H]. Qed.
+
+Lemma filter_nonempty_good : forall ws, Forall good_word ws -> filter nonempty ws = ws.
+Proof.
+  induction ws as [|w ws IH]; intro H; [reflexivity|].
+  inversion H as [|? ? [Hw _] Hr]; subst. simpl. destruct w; [congruence|]. simpl. rewrite IH by exact Hr. reflexivity.
+Qed.
+
+(* ================================================================= sanitize_class_name *)
+Lemma cap_ascii_alnum : forall w, forallb is_alnum w = true -> forallb is_alnum (cap_ascii w) = true.
+Proof.
+  intros [|c r] H; [reflexivity|]. simpl in *. apply andb_true_iff in H. destruct H as [H1 H2].
+  rewrite (upper_ascii_alnum c H1). simpl.
+  eapply forallb_map_imp; [|exact H2]. intros x Hx. apply lower_ascii_alnum, Hx.
+Qed.
+
+Lemma split_go_alnum : forall s cur insep,
+  forallb is_alnum cur = true ->
+  forall w, In w (split_go (fun c => negb (is_alnum c)) cur insep s) -> forallb is_alnum w = true.
+Proof.
+  induction s as [|c s IH]; intros cur insep Hcur w Hin; simpl in Hin.
+  - destruct Hin as [<-|[]]. rewrite forallb_forall in *. intros x Hx. apply Hcur. apply in_rev. exact Hx.
+  - destruct (negb (is_alnum c)) eqn:E.
+    + destruct insep.
+      * eapply IH; eauto.
+      * destruct Hin as [<-|Hin].
+        -- rewrite forallb_forall in *. intros x Hx. apply Hcur. apply in_rev. exact Hx.
+        -- eapply (IH [] true); eauto.
+    + eapply (IH (c :: cur) false); eauto. simpl. apply negb_false_iff in E. rewrite E, Hcur. reflexivity.
+Qed.
+
+Lemma class_core_alnum : forall s, forallb is_alnum (class_core s) = true.
+Proof.
+  intro s. unfold class_core. apply forallb_concat. intros l Hl.
+  apply in_map_iff in Hl. destruct Hl as [w [<- Hw]]. apply cap_ascii_alnum.
+  apply filter_In in Hw. destruct Hw as [Hw _].
+  destruct (tokens s) as [|t ts] eqn:Et.
+  - apply filter_In in Hw. destruct Hw as [Hw _]. eapply split_go_alnum; [|exact Hw]. reflexivity.
+  - pose proof (tokens_good s) as Hg. rewrite Et in Hg. rewrite Forall_forall in Hg. apply Hg, Hw.
+Qed.
+
+Lemma unnamed_class_ok : s_unnamed_class <> [] /\ forallb is_alnum s_unnamed_class = true.
+Proof. split; [discriminate | vm_compute; reflexivity]. Qed.
+
+Definition class_pre (s : str) : str :=
+  let c0 := class_core s in
+  let c1 := match c0 with [] => s_unnamed_class | _ => c0 end in
+  if starts_digit c1 then 95 :: c1 else c1.
+
+Lemma class_name_unfold : forall s,
+  class_name s = let c2 := class_pre s in
+                 if is_kw (map lower_ascii c2) || is_reserved (map lower_ascii c2) then c2 ++ [95] else c2.
+Proof. reflexivity. Qed.
+
+Lemma class_pre_ident : forall s, is_ident (class_pre s) = true.
+Proof.
+  intro s. unfold class_pre.
+  set (c1 := match class_core s with [] => s_unnamed_class | _ => class_core s end).
+  assert (H : c1 <> [] /\ forallb is_alnum c1 = true).
+  { subst c1. pose proof (class_core_alnum s) as Ha. destruct (class_core s) eqn:E.
+    - exact unnamed_class_ok.
+    - split; [discriminate | exact Ha]. }
+  destruct H as [Hne Hal]. destruct c1 as [|c r]; [congruence|].
+  simpl in Hal. apply andb_true_iff in Hal. destruct Hal as [Hc Hr].
+  assert (Hr' : forallb is_ident_char r = true) by (eapply forallb_imp; [apply is_alnum_ident_char | exact Hr]).
+  simpl starts_digit. destruct (is_digit c) eqn:Ed.
+  - apply is_ident_of_chars; [reflexivity|]. simpl. rewrite (is_alnum_ident_char c Hc), Hr'. reflexivity.
+  - apply is_ident_of_chars; [|exact Hr'].
+    destruct (ident_char_cases c (is_alnum_ident_char c Hc)) as [H|H]; [congruence | exact H].
+Qed.
+
+(* every class name is an identifier — for ALL code-point strings *)
+Theorem class_name_ident : forall s, is_ident (class_name s) = true.
+Proof.
+  intro s. rewrite class_name_unfold. cbv zeta.
+  destruct (is_kw (map lower_ascii (class_pre s)) || is_reserved (map lower_ascii (class_pre s))).
+  - apply is_ident_snoc; [apply class_pre_ident | reflexivity].
+  - apply class_pre_ident.
+Qed.
+
+(* ... and the only keywords it can be are the capitalised ones (None, True, False): F20a *)
+Theorem class_name_kw_only_cap : forall s, is_kw (class_name s) = true -> In (class_name s) cap_keywords.
+Proof.
+  intros s H. rewrite class_name_unfold in *. cbv zeta in *.
+  destruct (is_kw (map lower_ascii (class_pre s)) || is_reserved (map lower_ascii (class_pre s))) eqn:E.
+  - rewrite not_kw_snoc_us in H. discriminate.
+  - apply orb_false_iff in E. destruct E as [E _].
+    unfold cap_keywords. apply filter_In. split; [apply is_kw_In; exact H|].
+    unfold is_kw in E. rewrite E. reflexivity.
+Qed.
+
+Theorem class_name_valid_partial : forall s, guard_F20a s = true -> valid_name (class_name s) = true.
+Proof.
+  intros s G. unfold valid_name. rewrite class_name_ident. simpl.
+  destruct (is_kw (class_name s)) eqn:E; [|reflexivity].
+  apply class_name_kw_only_cap in E. unfold guard_F20a in G.
+  apply negb_true_iff in G. apply mem_str_In in E. rewrite E in G. discriminate G.
+Qed.
+
+Lemma cap_keywords_are : cap_keywords = [[70;97;108;115;101]; [78;111;110;101]; [84;114;117;101]].
+Proof. vm_compute. reflexivity. Qed.
+
+(* ================================================================= sanitize_method_name *)
+Lemma camel1_In : forall s c, In c s -> In c (camel1 s).
+Proof.
+  fix IH 1. intros [|a [|b r]] c H; try exact H.
+  change (camel1 (a :: b :: r)) with
+    (if is_lower_or_digit a && is_upper b then a :: 95 :: camel1 (b :: r) else a :: camel1 (b :: r)).
+  destruct H as [<-|H].
+  - destruct (is_lower_or_digit a && is_upper b); left; reflexivity.
+  - destruct (is_lower_or_digit a && is_upper b); [right; right | right]; apply IH; exact H.
+Qed.
+
+Lemma camel2_In : forall s c, In c s -> In c (camel2 s).
+Proof.
+  fix IH 1. intros [|a [|b [|d r]]] c H; try exact H.
+  change (camel2 (a :: b :: d :: r)) with
+    (if is_upper a && is_upper b && is_lower d then a :: 95 :: camel2 (b :: d :: r) else a :: camel2 (b :: d :: r)).
+  destruct H as [<-|H].
+  - destruct (is_upper a && is_upper b && is_lower d); left; reflexivity.
+  - destruct (is_upper a && is_upper b && is_lower d); [right; right | right]; apply IH; exact H.
+Qed.
+
+Lemma collapse_us_In_inv : forall s c, In c (collapse_us s) -> In c s.
+Proof.
+  fix IH 1. intros [|a [|b r]] c H; try exact H.
+  change (collapse_us (a :: b :: r)) with
+    (if is_us a && is_us b then collapse_us (b :: r) else a :: collapse_us (b :: r)) in H.
+  destruct (is_us a && is_us b).
+  - right. apply IH. exact H.
+  - destruct H as [<-|H]; [left; reflexivity | right; apply IH; exact H].
+Qed.
+
+Lemma collapse_us_In : forall s c, In c s -> is_us c = false -> In c (collapse_us s).
+Proof.
+  fix IH 1. intros [|a [|b r]] c H Hc; try exact H.
+  change (collapse_us (a :: b :: r)) with
+    (if is_us a && is_us b then collapse_us (b :: r) else a :: collapse_us (b :: r)).
+  destruct (is_us a && is_us b) eqn:E.
+  - destruct H as [<-|H]; [apply andb_true_iff in E; destruct E; congruence | apply IH; assumption].
+  - destruct H as [<-|H]; [left; reflexivity | right; apply IH; assumption].
+Qed.
+
+Lemma alnum_not_us : forall c, is_alnum c = true -> is_us c = false.
+Proof. intros c. unfold is_alnum, is_alpha, is_upper, is_lower, is_digit, is_us. lia. Qed.
+Lemma alnum_not_brace : forall c, is_alnum c = true -> is_brace c = false.
+Proof. intros c. unfold is_alnum, is_alpha, is_upper, is_lower, is_digit, is_brace. lia. Qed.
+
+Lemma has_alnum_ex : forall s, has_alnum s = true <-> exists c, In c s /\ is_alnum c = true.
+Proof. intro s. apply existsb_exists. Qed.
+
+Definition method_s3 (s : str) : str :=
+  map (fun c => if is_ident_char c then c else 95) (camel2 (camel1 (filter (fun c => negb (is_brace c)) s))).
+
+Lemma method_core_unfold : forall s, method_core s = map lower_ascii (strip_us (collapse_us (method_s3 s))).
+Proof. reflexivity. Qed.
+
+Lemma method_s3_chars : forall s, forallb is_ident_char (method_s3 s) = true.
+Proof.
+  intro s. unfold method_s3. apply forallb_forall. intros x Hx.
+  apply in_map_iff in Hx. destruct Hx as [c [<- _]].
+  destruct (is_ident_char c) eqn:E; [exact E | reflexivity].
+Qed.
+
+Lemma method_core_chars : forall s, forallb is_ident_char (method_core s) = true.
+Proof.
+  intro s. rewrite method_core_unfold. apply forallb_forall. intros x Hx.
+  apply in_map_iff in Hx. destruct Hx as [c [<- Hc]]. apply lower_ascii_ident_char.
+  apply strip_us_In, collapse_us_In_inv in Hc.
+  pose proof (method_s3_chars s) as H. rewrite forallb_forall in H. apply H, Hc.
+Qed.
+
+Lemma method_core_nonempty : forall s, has_alnum s = true -> method_core s <> [].
+Proof.
+  intros s H. apply has_alnum_ex in H. destruct H as [c [Hin Hc]].
+  rewrite method_core_unfold.
+  assert (H3 : In c (method_s3 s)).
+  { unfold method_s3. apply in_map_iff. exists c. split.
+    - rewrite (is_alnum_ident_char c Hc). reflexivity.
+    - apply camel2_In, camel1_In. apply filter_In. split; [exact Hin|]. rewrite (alnum_not_brace c Hc). reflexivity. }
+  destruct (strip_us_head (collapse_us (method_s3 s))) as [x [r [E _]]].
+  { exists c. split; [apply collapse_us_In; [exact H3 | apply alnum_not_us, Hc] | apply alnum_not_us, Hc]. }
+  rewrite E. discriminate.
+Qed.
+
+(* F20b excluded: a name with an ASCII letter or digit always gives a valid method / field / parameter name *)
+Theorem method_name_valid_partial : forall s, has_alnum s = true -> valid_name (method_name s) = true.
+Proof.
+  intros s H. unfold method_name. apply finish_snake_valid; [apply method_core_nonempty, H | apply method_core_chars].
+Qed.
+
+(* without the guard the result is still either empty or valid: the ONLY failure is the empty name *)
+Theorem method_name_empty_or_valid : forall s, method_name s = [] \/ valid_name (method_name s) = true.
+Proof.
+  intro s. unfold method_name. destruct (method_core s) eqn:E.
+  - left. vm_compute. reflexivity.
+  - right. apply finish_snake_valid; [discriminate | rewrite <- E; apply method_core_chars].
+Qed.
